@@ -163,6 +163,12 @@ class Layout:
     def __init__(self, rng=None, wild=False):
         self.rng = rng
         self.wild = wild
+        # where long cards are continued: mostly before column 80, now and then only near MCNP6's limit of 128 columns
+        # (a line of 81–128 columns is as valid as a wrapped one)
+        self.width = 78
+        if rng is not None:
+            m = rng.random()
+            self.width = 78 if m < 0.85 else 100 if m < 0.93 else 124
 
     def sp(self, mandatory=False):
         if self.rng is None:
@@ -338,6 +344,8 @@ def wrap_card(line, width=78, lay=None):
     columns 1–5 (one to four leading blanks), which MCNP allows"""
     if lay is not None and lay.rng is not None and lay.coin(0.15):
         line = ' ' * lay.rng.randint(1, 4) + line
+    if lay is not None and width == 78:
+        width = getattr(lay, 'width', 78)
     if len(line) <= width:
         return line
     lead = len(line) - len(line.lstrip(' '))
@@ -366,7 +374,7 @@ def render_deck(d, lay=None, imp_on_cards=None):
     out = [d.title]
     for c in d.cells:
         if c.hints.get('raw') is not None:
-            out.append(wrap_card(c.hints['raw']))
+            out.append(wrap_card(c.hints['raw'], width=getattr(lay, 'width', 78) if lay is not None else 78))
         else:
             out.append(wrap_card(render_cell(c, lay, with_imp=imp_on_cards), lay=lay))
     out.append('')
